@@ -17,6 +17,7 @@ package vsync
 
 import (
 	"fmt"
+	"reflect"
 	"sort"
 	"sync"
 )
@@ -34,6 +35,13 @@ type thread struct {
 	rwKind int // 1 = wants write lock, 2 = wants read lock
 	waitOn *Once
 	cond   func() bool // WaitUntil: harness-level blocking condition (must be a //go:norace function)
+	// channel operations (chan.go)
+	chKind    int
+	chID      uintptr
+	chBuf     reflect.Value // buffered channel this goroutine wants to use
+	chBlocked bool          // waiting for a counterpart on an unbuffered channel
+	chGo      bool          // woken to perform chOp, not to run
+	chOp      func()
 }
 
 var (
@@ -88,6 +96,7 @@ func Begin() {
 	}
 	threads, alive = nil, 0
 	Rec = nil
+	chanReset()
 	Deadlock, ChildPanics, Points, Spawned, Unfinished = false, nil, 0, 0, 0
 	cur = newThread()
 	Active = true
@@ -155,6 +164,17 @@ func enabled(t *thread) bool {
 	if t.cond != nil && !t.cond() {
 		return false
 	}
+	if t.chBlocked {
+		return false
+	}
+	if t.chBuf.IsValid() {
+		if t.chKind == chSend && t.chBuf.Len() >= t.chBuf.Cap() && !isClosed(t.chID) {
+			return false
+		}
+		if t.chKind == chRecv && t.chBuf.Len() == 0 && !isClosed(t.chID) {
+			return false
+		}
+	}
 	return true
 }
 
@@ -180,6 +200,7 @@ func yieldOthers(self *thread) bool {
 			cur = t
 			t.h.wake()
 			self.h.park()
+			self.afterPark()
 			return true
 		}
 	}
@@ -211,6 +232,7 @@ func schedule(self *thread) {
 			threads[0].h.wake()
 			if !self.done {
 				self.h.park()
+				self.afterPark()
 			}
 			return
 		}
@@ -239,6 +261,7 @@ func schedule(self *thread) {
 	next.h.wake()
 	if !self.done {
 		self.h.park()
+		self.afterPark()
 		if Deadlock && self.id == 0 {
 			panic(DeadlockPanic{})
 		}
@@ -287,6 +310,7 @@ func Go(f func()) {
 //go:norace
 func (t *thread) run(f func()) {
 	t.h.park()
+	t.afterPark()
 	t.call(f)
 	endWG.Done()
 	t.done = true
